@@ -16,12 +16,38 @@ def flatten_concat(e):
         for v in e.values:
             if isinstance(v, ast.Constant):
                 out.append(v)
-            elif isinstance(v, ast.FormattedValue) and v.conversion == -1 and v.format_spec is None:
-                out.append(ast.Call(ast.Name('str', ast.Load()), [v.value], []))
+            elif isinstance(v, ast.FormattedValue) and v.conversion in (-1, 115) and \
+                    v.format_spec is None:
+                # {x} and {x!s} are str(x); str(x) is x itself when x evidently is a str
+                if evidently_str(v.value):
+                    out.extend(flatten_concat(v.value))
+                else:
+                    out.append(ast.Call(ast.Name('str', ast.Load()), [v.value], []))
             else:
                 out.append(v)
         return merge_consts(out)
     return [e]
+
+
+def evidently_str(e):
+    """Expressions whose value is a str by construction (so that str(e) == e)."""
+    e = unawait(e)
+    if isinstance(e, ast.Constant):
+        return isinstance(e.value, str)
+    if isinstance(e, ast.JoinedStr):
+        return True
+    if isinstance(e, ast.BinOp) and isinstance(e.op, ast.Add):
+        return evidently_str(e.left) or evidently_str(e.right)
+    if isinstance(e, ast.Call):
+        f = e.func
+        if isinstance(f, ast.Name) and f.id == 'str':
+            return True
+        if isinstance(f, ast.Attribute) and f.attr in ('decode', 'join', 'format', 'lower',
+                                                       'upper', 'strip'):
+            return True
+        if isinstance(f, ast.Attribute) and f.attr == 'dumps' and 'json' in txt(f.value):
+            return True
+    return False
 
 
 def merge_consts(parts):
